@@ -67,6 +67,11 @@ CHECKS = {
    "ExpiredShardGroups/DeletedShardGroups are evaluated at End+D-1ns / End+D / End+D+1ns and decoy instants over generated policies and group sets; the real retention.Service runs against a real meta service + client and a recording TSDBStore (local shards of live, expired, deleted, pruned groups and ids unknown to the metadata), every DeleteShard/DeleteShardGroup call is judged with clock brackets, metadata errors are injected between passes counted at the service's own calls, and within K=3 passes after faults stop every expired group must be marked deleted and every local shard of a deleted group removed; write-time cut-off cross-checked through MapShards.",
    "Unbounded 'eventually' restated as a 3-pass bound; the exact End+D==t instant is judged at predicate level only; cluster-level removal from every holder is not built.",
    "DESIGN.md section 3 C17"),
+ "C18": ("exploration",
+   "model comparison of restored/exported/copied shards against the source at backup time (both read APIs); live backup racing a writer with prefix oracle; copy-shard on a real cluster with the backup stream cut at seeded and tar-entry-boundary offsets",
+   "Sources come from seeded histories ending in every mixture of cache / file generations / pending tombstones; BackupShard -> RestoreShard into a second store must read like the source (and reopen), the source must be unchanged, ExportShard must agree inside its range, a backup racing a writer must hold a prefix of the acknowledged writes that includes everything acknowledged before the call (also with a cache snapshot parked); on a 3-node cluster copy-shard through the meta endpoint is judged: success => destination content equals source and owner added, failure => owner list unchanged, with the backup stream cut through the dial hook.",
+   "Sampled histories; outside an export's time range only 'never written' data counts as foreign; destination stopped mid-restore and source stopped mid-copy are approximated by stream cuts.",
+   "DESIGN.md section 3 C18"),
 }
 
 NOT_APPLICABLE = {
